@@ -6,10 +6,11 @@ from .modelcheck import run_property
 
 def run(tier, seed, verdict):
     quick = tier != "thorough"
-    runs = [mr.ModelRun("MC_C19_quick.cfg" if quick else "MC_C19.cfg", seed, probes=("reopen",),
+    runs = [mr.ModelRun("MC_C19_quick.cfg" if quick else "MC_C19.cfg", seed, probes=("reopen", "stamps"),
                         name_pools=[0, 2], stride=1 if quick else 6),
-            mr.ModelRun("MC_C19_links.cfg", seed + 1, probes=(), name_pools=[0], stride=4 if quick else 1)]
-    return run_property(
+            mr.ModelRun("MC_C19_links_q1.cfg" if quick else "MC_C19_links.cfg", seed + 1, probes=("stamps",), name_pools=[0], stride=1),
+            mr.ModelRun("MC_Sim.cfg", seed + 2, probes=(), name_pools=[0, 1], simulate="num=%d" % (25 if quick else 300), depth=30)]
+    level, cov, assumptions = run_property(
         "C19", verdict, runs, require_actions=("Tick:ok", "ToggleAuto:ok", "Force:ok", "SetAttr:ok"),
         tlc_props=["CreatedAtFixed", "UpdatedMonotone", "TimestampLocality", "NoAutoNoChange", "ListedAttrStamps"],
         also_own=lambda f: f["action"] in ("Tick", "ToggleAuto", "Force"),
@@ -19,8 +20,29 @@ def run(tier, seed, verdict):
              "timestamp moving on any other entity is a mismatch; TZ is set to a non-UTC zone",
         assumptions=["setters of metadata properties (definition, unit, ...) and of dimension descriptors are not in the "
                      "property's list of descriptive attributes; the specification follows the code there",
-                     "only type / link type / definition / positions / extents / feature data setters are driven on "
-                     "NixModel; label, unit, calibration, position, extent, units are driven by the attribute pass"])
+                     "type / link type / definition / positions / extents / feature data are actions of NixModel; label, "
+                     "unit, calibration, position, extent, units, reference, repository and adding a dimension are "
+                     "applied by the 'stamps' probe on reached states (after a tick, auto on or off as the state says) "
+                     "under the same rules (ListedAttrStamps, TimestampLocality, NoAutoNoChange, CreatedAtFixed)"])
+
+    # dimension descriptors and their links (NixDimLink): no call may move a timestamp while the switch is off
+    from . import runner, dimlink, c05, core
+    drun = runner.ExportRun("MC_NixDimLink", "MC_C05_dims_quick.cfg", seed, "harness.dimlink",
+                            opts={"ranks": c05.RANKS, "auto": False}, stride=6 if quick else 2,
+                            label=lambda tx: dimlink.klass(tx["act"]) + ":" + tx["act"]["out"]).run()
+    for f in drun.findings:
+        if f["owner"] == "C19":
+            verdict.violation(f["key"], f["detail"], f["replay"])
+    if not drun.stats["replayed"]:
+        raise core.MachineryError("no dimension-link transition replayed")
+    cov["states"] += drun.res.distinct
+    cov["transitions"] += drun.stats["exported"]
+    cov["evaluations"] += drun.stats["replayed"]
+    cov["traces_validated_against_impl"] += drun.stats["replayed"]
+    cov["distinct_nontrivial"] += drun.stats["replayed"]
+    cov["dimension_links_auto_off"] = {"replayed": drun.stats["replayed"], "per_action": dict(sorted(drun.per_action.items()))}
+    cov["checker_cmd"] += " ;; " + drun.res.cmd
+    return level, cov, assumptions
 
 
 def replay(path):
